@@ -12,8 +12,10 @@ Tie:  H4 — the real parse_pattern_list / match_pattern_list (real regex / glob
 import json
 import os
 import re
+import shutil
 import subprocess
 import sys
+import zlib
 
 from lib import common as C
 
@@ -37,6 +39,33 @@ def hx(s):
 
 def unhx(h):
     return b"" if h == "-" else bytes.fromhex(h)
+
+
+_UVMODEL = None
+
+
+def private_uvmodel(ctx):
+    """copy of the driver executable taken under the Lean lock right after the build:
+    other builders relink lean/.lake/build/bin/uvmodel while this check is still running"""
+    global _UVMODEL
+    src = os.path.join(C.LEAN, ".lake", "build", "bin", "uvmodel")
+    dst = os.path.join(ctx.scratch, "uvmodel")
+    with C.LeanLock():
+        shutil.copy2(src, dst)
+    _UVMODEL = dst
+
+
+def run_model(lines, timeout=900):
+    if _UVMODEL is None:
+        return C.run_model("C14", lines, timeout)
+    r = subprocess.run([_UVMODEL, "C14"], input="\n".join(lines) + "\n", stdout=subprocess.PIPE,
+                       stderr=subprocess.PIPE, text=True, timeout=timeout)
+    if r.returncode != 0:
+        raise RuntimeError("uvmodel C14 failed: %s" % r.stderr[-500:])
+    out = r.stdout.split("\n")
+    if out and out[-1] == "":
+        out.pop()
+    return out
 
 
 # ---------------------------------------------------------------- generators
@@ -542,12 +571,15 @@ def gen_program(rng, idx):
 
 
 E2E_BUILDS = [
-    ("patchable", ["-O1", "-fpatchable-function-entry=5"], "fpatchable"),
-    ("nopmcount", ["-O1", "-pg", "-mfentry", "-mnop-mcount", "-no-pie", "-fno-pic"], "fentry-nop"),
-    ("patchable-cet", ["-O1", "-fcf-protection=full", "-fpatchable-function-entry=5"], "fpatchable"),
-    ("patchable-nopie-O2", ["-O2", "-fpatchable-function-entry=5", "-no-pie", "-fno-pic"], "fpatchable"),
-    ("nopmcount-cet-O0", ["-O0", "-pg", "-mfentry", "-mnop-mcount", "-fcf-protection=full", "-no-pie", "-fno-pic"], "fentry-nop"),
+    ("patchable", ["-O1", "-fpatchable-function-entry=5"]),
+    ("nopmcount", ["-O1", "-pg", "-mfentry", "-mnop-mcount", "-no-pie", "-fno-pic"]),
+    ("patchable-cet", ["-O1", "-fcf-protection=full", "-fpatchable-function-entry=5"]),
+    ("nopmcount-cet", ["-O1", "-pg", "-mfentry", "-mnop-mcount", "-fcf-protection=full", "-no-pie", "-fno-pic"]),
+    ("patchable-nopie-O2", ["-O2", "-fpatchable-function-entry=5", "-no-pie", "-fno-pic"]),
+    ("nopmcount-cet-O0", ["-O0", "-pg", "-mfentry", "-mnop-mcount", "-fcf-protection=full", "-no-pie", "-fno-pic"]),
+    ("plain", ["-O1"]),
 ]
+WITNESS = "c14_prefix_endbr_nop_undetected_witness"
 
 
 def gen_e2e_config(rng, names):
@@ -571,25 +603,44 @@ def gen_e2e_config(rng, names):
 
 
 def elf_info(path):
-    """text LOAD segment (vaddr, memsz, offset), ET_DYN?, symbols {name: (addr, size)}"""
-    out = C.sh(["readelf", "-hlW", path]).stdout
+    """text LOAD segment (vaddr, memsz, offset), ET_DYN?, symbols {name: (addr, size)},
+    scan list [(name, addr, is_local_or_global)], section type, check_trace_functions() result"""
+    out = C.sh(["readelf", "-hlSW", path]).stdout
     dyn = bool(re.search(r"Type:\s+DYN", out))
     text = None
     for m in re.finditer(r"LOAD\s+(0x[0-9a-f]+)\s+(0x[0-9a-f]+)\s+0x[0-9a-f]+\s+0x[0-9a-f]+\s+(0x[0-9a-f]+)\s+(R ?E)", out):
         text = (int(m.group(2), 16), int(m.group(3), 16), int(m.group(1), 16))
         break
+    sect = "fpatchable" if "__patchable_function_entries" in out else "xray" if "xray_instr_map" in out else "~"
     syms = {}
-    for l in C.sh(["nm", "-S", "--defined-only", path]).stdout.split("\n"):
+    scan = []
+    prev = None
+    for l in C.sh(["nm", "-n", "-S", "--defined-only", path]).stdout.split("\n"):
         t = l.split()
-        if len(t) == 4 and t[2] in "Tt":
-            syms[t[3]] = (int(t[0], 16), int(t[1], 16))
-    return text, dyn, syms
+        # libmcount's symtab: sized FUNC symbols, aliases (same address as the previous one) dropped
+        if len(t) == 4 and t[2] in "TtWw" and int(t[1], 16) > 0:
+            if t[2] in "Tt":
+                syms[t[3]] = (int(t[0], 16), int(t[1], 16))
+            if prev != t[0]:
+                scan.append((t[3], int(t[0], 16), t[2] in "Tt"))
+            prev = t[0]
+    fallback = "none"
+    for l in C.sh(["readelf", "--dyn-syms", "-W", path]).stdout.split("\n"):
+        t = l.split()
+        if len(t) >= 8 and t[3] in ("FUNC", "IFUNC"):
+            nm = t[7].split("@")[0]
+            if nm in ("__cyg_profile_func_enter", "__fentry__", "mcount", "_mcount", "__gnu_mcount_nc"):
+                fallback = {"__cyg_profile_func_enter": "none", "__fentry__": "fentry"}.get(nm, "pg")
+                break
+    return text, dyn, syms, scan, sect, fallback
 
 
 def run_e2e(ctx, hexe, uft, failures, cov, model_ok=True):
     nprog = 2 if ctx.tier == "quick" else 8
-    ncfg = 2 if ctx.tier == "quick" else 6
-    builds = E2E_BUILDS[:3] if ctx.tier == "quick" else E2E_BUILDS
+    ncfg = 2 if ctx.tier == "quick" else 5
+    builds = E2E_BUILDS[:4] if ctx.tier == "quick" else E2E_BUILDS
+    known = [f for f in C.known_findings("C14") if WITNESS in f.get("witness_theorems", [])]
+    prefix_hits = 0
     wd = os.path.join(ctx.scratch, "e2e")
     os.makedirs(wd, exist_ok=True)
     runs = 0
@@ -600,25 +651,33 @@ def run_e2e(ctx, hexe, uft, failures, cov, model_ok=True):
         names, src = gen_program(ctx.rng, pi)
         cfile = os.path.join(wd, "p%d.c" % pi)
         open(cfile, "w").write(src)
-        order = list(range(len(builds)))
-        picks = order if ctx.tier == "thorough" else [pi % len(builds), (pi + 1) % len(builds)] if pi else [0, 1, 2]
+        picks = list(range(len(builds))) if (ctx.tier == "thorough" or pi == 0) else [3, 1 + pi % 2 * 1]
         for bi in picks:
-            bname, flags, ty = builds[bi]
+            bname, flags = builds[bi]
             exe = os.path.join(wd, "p%d-%s" % (pi, bname))
             r = C.sh(["gcc", "-w"] + flags + [cfile, "-o", exe])
             if r.returncode != 0:
                 ctx.notes.append("e2e build %s failed: %s" % (bname, r.stdout[-200:]))
                 continue
-            text, dyn, syms = elf_info(exe)
+            text, dyn, syms, scan, sect, fallback = elf_info(exe)
             disk = open(exe, "rb").read()
+
+            def ondisk_at(vaddr, n=16):
+                off = vaddr - text[0] + text[2]
+                return disk[off:off + n]
+            dt = " ".join("%s %d %s" % (hx(n), 1 if lg else 0, ondisk_at(a, 9).hex())
+                          for n, a, lg in scan if text[0] <= a < text[0] + text[1])
+            t0, t1 = run_model(["dt 0 %s %s %s" % (sect, fallback, dt),
+                                         "dt 1 %s %s %s" % (sect, fallback, dt)]) if model_ok else (None, None)
             nat = subprocess.run([exe], stdout=subprocess.PIPE, stderr=subprocess.PIPE, text=True, timeout=20)
             for ci in range(ncfg):
                 ptype, opts, z = gen_e2e_config(ctx.rng, names)
                 if len(failures) >= 3:      # enough evidence; bound the cost of a broken tree
                     continue
                 data = os.path.join(wd, "d-%d-%d-%d" % (pi, bi, ci))
+                logf = data + ".log"
                 cmd = ["timeout", "10", uft, "record", "--libmcount-path=" + os.path.join(ctx.src, "libmcount"),
-                       "--no-libcall", "--no-event", "--match=" + ptype, "-d", data]
+                       "-v", "--logfile=" + logf, "--no-libcall", "--no-event", "--match=" + ptype, "-d", data]
                 for o, p in opts:
                     cmd += ["-" + o, p]
                 if z:
@@ -645,6 +704,38 @@ def run_e2e(ctx, hexe, uft, failures, cov, model_ok=True):
                 if not funcs or not textend:
                     failures.append(("e2e-dump", rep, "tracee produced no self dump: %r" % rr.stderr[-300:], False))
                     continue
+                # module type as the real mcount_arch_find_module decided it
+                try:
+                    mt = re.search(r"dynamic patch type: \S+: \d+ \(([\w-]+)\)", open(logf, errors="replace").read())
+                except OSError:
+                    mt = None
+                impl_ty = mt.group(1) if mt else None
+                rep["detected_type"] = impl_ty
+                rep["model_type_prefix"], rep["model_type_fixed"] = t0, t1
+                prefix = False
+                if model_ok:
+                    if impl_ty == t1:
+                        ty = t1
+                    elif impl_ty == t0:
+                        # the implementation behaves like the pre-fix model (fixed = false)
+                        prefix = True
+                        prefix_hits += 1
+                        ty = t0
+                        what = ("%s (%s): every function starts with endbr64 + NOP, mcount_arch_find_module classifies the "
+                                "module as '%s' instead of '%s', so -P patches nothing (matches the pre-fix model, %s)"
+                                % (bname, " ".join(flags), t0, t1, WITNESS))
+                        if known:
+                            C.known(ctx, known[0], "%s %s" % (known[0].get("id", "?"), what))
+                        elif not any(f[0] == "e2e-detect" for f in failures):
+                            rep2 = dict(rep)
+                            rep2["theorem"] = "c14_detect_agrees_with_patcher (fixed) / " + WITNESS
+                            failures.append(("e2e-detect", rep2, what, True))
+                    else:
+                        failures.append(("e2e-detect-model", rep, "module type: implementation says %s, model says %s "
+                                         "(pre-fix) / %s (fixed)" % (impl_ty, t0, t1), False))
+                        continue
+                else:
+                    ty = impl_ty or "none"
                 rp = subprocess.run(["timeout", "30", uft, "report", "-d", data, "--no-pager", "-f", "call"],
                                     stdout=subprocess.PIPE, stderr=subprocess.PIPE, text=True)
                 traced = {}
@@ -662,7 +753,7 @@ def run_e2e(ctx, hexe, uft, failures, cov, model_ok=True):
                 mline = [l[6:] for l in hl if l.startswith("MODEL ")][0]
                 mt = mline.split()
                 bits = mt[7 + len(allnames):]
-                mverd = C.run_model("C14", [mline])[0].split("|")[1].strip() if model_ok else None
+                mverd = run_model([mline])[0].split("|")[1].strip() if model_ok else None
                 base = funcs["main"][0] - syms["main"][0] if dyn else 0
                 tstart = base + text[0]
                 tend = tstart + text[1]
@@ -675,11 +766,10 @@ def run_e2e(ctx, hexe, uft, failures, cov, model_ok=True):
                     col = "".join(b[i] for b in bits)
                     want = ref_verdict([("", not n) for n, _, _ in items], col, "", None)
                     addr, size = syms[f]
-                    off = addr - text[0] + text[2]
-                    ondisk = disk[off:off + 16]
+                    ondisk = ondisk_at(addr)
                     site = site_of(ondisk, 0)
                     patchable = ondisk[site:site + 5] in NOPS.values()
-                    expect = want == "+" and size >= max(z, 6) and patchable
+                    expect = want == "+" and size >= max(z, 6) and patchable and not prefix
                     ncalls = funcs[f][1]
                     got = traced.get(f, 0)
                     sigs.add((bname, want, size >= max(z, 6), expect))
@@ -699,7 +789,7 @@ def run_e2e(ctx, hexe, uft, failures, cov, model_ok=True):
                     v = {"+": "+", "-": "-", "0": "0"}[want]
                     pf_lines.append((f, v, "pf %s %d %d %#x 0 %#x %s" % (ty, z, size, funcs[f][0], tramp, ondisk.hex())))
                 # byte-exact comparison with the model's patcher
-                mouts = C.run_model("C14", [l for _, _, l in pf_lines]) if model_ok else []
+                mouts = run_model([l for _, _, l in pf_lines]) if model_ok else []
                 for (f, v, l), mo in zip(pf_lines, mouts):
                     mcode = bytes.fromhex(mo.split()[1]) if v == "+" else bytes.fromhex(l.split()[-1])
                     if mcode != funcs[f][2] and not bad:
@@ -712,7 +802,7 @@ def run_e2e(ctx, hexe, uft, failures, cov, model_ok=True):
                 for m in maps:
                     if len(m) >= 2 and "w" in m[1] and "x" in m[1] and not bad:
                         bad = ("tracee mapping is writable and executable after patching: %s" % " ".join(m), True)
-                if any(v == "+" for _, v, _ in pf_lines) and textend[2][:8] != bytes.fromhex("3eff2501000000cc") and not bad:
+                if ty in PATCH_TYPES and textend[2][:8] != bytes.fromhex("3eff2501000000cc") and not bad:
                     bad = ("no trampoline at the end of the text mapping: %s" % textend[2].hex(), False)
                 if len(samples) < 3:
                     samples.append({"build": bname, "options": opts, "Z": z, "traced": traced,
@@ -721,7 +811,7 @@ def run_e2e(ctx, hexe, uft, failures, cov, model_ok=True):
                     rep["stderr"] = rr.stderr[-3000:]
                     rep["report"] = rp.stdout[-1500:]
                     failures.append(("e2e", rep, bad[0], bad[1]))
-    cov.update({"e2e_runs": runs, "e2e_selected_function_instances": traced_total,
+    cov.update({"e2e_runs": runs, "e2e_runs_matching_prefix_model": prefix_hits, "e2e_selected_function_instances": traced_total,
                 "e2e_distinct_signatures": len(sigs), "e2e_samples": samples})
     return runs
 
@@ -760,12 +850,15 @@ def run(ctx):
         return C.finish(ctx)
     ok, problems = C.prove(ctx, "C14")
     model_ok = ok
+    if ok:
+        private_uvmodel(ctx)
     if not ok:
         # keep going without the model: the monitors may still find a concrete failing input
         C.violation(ctx, "proof", {"kind": "proof-obligation-broken", "problems": problems,
                                    "hint": "Uft/Gen/PatchTables.lean is regenerated from the checked tree; a changed "
                                            "byte table breaks the table lemmas"}, True)
 
+    t_prove = ctx.elapsed()
     hexe, okc, log = build_harness(ctx)
     if not okc:
         C.violation(ctx, "build", {"kind": "harness-build-failed", "log": log[-3000:]}, True)
@@ -797,7 +890,9 @@ def run(ctx):
                                      "cases": len(cases), "got": [len(models), len(impls)],
                                      "next_case": cases[k][0][:2000] if k < len(cases) else None}, True)
         return C.finish(ctx)
-    mout = C.run_model("C14", models) if model_ok else list(impls)
+    t_harness = ctx.elapsed()
+    mout = run_model(models) if model_ok else list(impls)
+    t_model = ctx.elapsed()
 
     failures = []   # (name, replay obj, what, is_monitor)
     disagree = monitor_fail = 0
@@ -815,7 +910,7 @@ def run(ctx):
         elif kind == "pl":
             sig = (kind, mi.split("|")[1].strip(), len(desc.get("items", [])), desc.get("ptype"))
         else:
-            sig = (kind, hash(mi) & 0xffffffff)
+            sig = (kind, zlib.crc32(mi.encode()))
         distinct.add(sig)
         bad = None
         if not desc.get("corpus"):
@@ -836,7 +931,9 @@ def run(ctx):
 
     # H5
     cov = {}
+    t_h4 = ctx.elapsed()
     okm, mlog = ctx.make()
+    t_make = ctx.elapsed()
     uft = os.path.join(ctx.src, "uftrace")
     e2e_runs = 0
     if not okm or not os.path.exists(uft):
@@ -882,6 +979,9 @@ def run(ctx):
         "exhaustive": False, "samples": samples,
     })
     ctx.coverage.update(cov)
+    ctx.coverage["stage_seconds"] = {"translate+prove": round(t_prove, 1), "harness": round(t_harness - t_prove, 1),
+                                     "model": round(t_model - t_harness, 1), "monitors": round(t_h4 - t_model, 1),
+                                     "make": round(t_make - t_h4, 1), "e2e": round(ctx.elapsed() - t_make, 1)}
     ctx.assumptions += [
         "regex/glob/strcmp matching (regexec, fnmatch) is an uninterpreted relation supplied by the real engines",
         "mprotect/mmap behave as documented on mapped pages; the only injected failure is the RWX request of setup",
@@ -910,7 +1010,7 @@ def replay(ctx, path):
     if not m or not im:
         print("harness failed:", p.stderr[-500:])
         return 2
-    mo = C.run_model("C14", m)
+    mo = run_model(m)
     print("impl :", im[0][:500])
     print("model:", mo[0][:500])
     return 0 if C.norm(im[0]) == C.norm(mo[0]) else 1
